@@ -270,14 +270,36 @@ func (p *Prog) contractEffects(so *Sorts, fn *ssa.Function, c *Contract) []Effec
 		}
 		if strings.HasPrefix(m, "elems(") {
 			name := strings.TrimSuffix(strings.TrimPrefix(m, "elems("), ")")
-			for _, prm := range fn.Params {
-				if prm.Name() == name {
-					if st, ok := prm.Type().Underlying().(*types.Slice); ok {
+			pnames, ptypes := sigParams(fn)
+			for i := range pnames {
+				if pnames[i] == name {
+					if st, ok := ptypes[i].Underlying().(*types.Slice); ok {
 						es := so.sortOf(st.Elem())
 						out = append(out, Effect{key: regKeyS("M:"+es, arrSort(sInt, arrSort(sInt, es))), param: -1})
 					}
 				}
 			}
+			continue
+		}
+		if strings.HasPrefix(m, "map ") {
+			name := strings.TrimSpace(strings.TrimPrefix(m, "map "))
+			pk := fnPkg(fn)
+			if i := strings.LastIndex(name, "."); i >= 0 {
+				for _, sp := range p.prog.AllPackages() {
+					if sp.Pkg.Name() == name[:i] || sp.Pkg.Path() == name[:i] {
+						pk = sp.Pkg
+					}
+				}
+				name = name[i+1:]
+			}
+			o := pk.Scope().Lookup(name)
+			if o == nil {
+				panic(fmt.Sprintf("%s:%d: unknown map global %q", c.File, c.Line, m))
+			}
+			mt := o.Type().Underlying().(*types.Map)
+			ks, vs := so.sortOf(mt.Key()), so.sortOf(mt.Elem())
+			out = append(out, Effect{key: regKeyS("MH:"+ks+":"+vs, arrSort(sInt, arrSort(ks, sBool))), param: -1})
+			out = append(out, Effect{key: regKeyS("MV:"+ks+":"+vs, arrSort(sInt, arrSort(ks, vs))), param: -1})
 			continue
 		}
 		if strings.HasPrefix(m, "global ") {
@@ -291,11 +313,16 @@ func (p *Prog) contractEffects(so *Sorts, fn *ssa.Function, c *Contract) []Effec
 		parts := strings.Split(m, ".")
 		if len(parts) == 2 {
 			found := false
-			for i, prm := range fn.Params {
-				if prm.Name() == parts[0] {
-					st, _ := derefStruct(prm.Type())
+			pnames, ptypes := sigParams(fn)
+			for i := range pnames {
+				if pnames[i] == parts[0] {
+					st, _ := derefStruct(ptypes[i])
 					if fi, ok := findField(st, parts[1]); ok {
-						out = append(out, Effect{key: regFieldKey(so, st, fi), base: prm, param: i})
+						var base ssa.Value = paramValue{i}
+						if i < len(fn.Params) {
+							base = fn.Params[i]
+						}
+						out = append(out, Effect{key: regFieldKey(so, st, fi), base: base, param: i})
 						found = true
 					}
 				}
@@ -304,7 +331,7 @@ func (p *Prog) contractEffects(so *Sorts, fn *ssa.Function, c *Contract) []Effec
 				continue
 			}
 			// Type.field : any object of that type
-			if tn := fn.Pkg.Pkg.Scope().Lookup(parts[0]); tn != nil {
+			if tn := fnPkg(fn).Scope().Lookup(parts[0]); tn != nil {
 				if fi, ok := findField(tn.Type(), parts[1]); ok {
 					out = append(out, Effect{key: regFieldKey(so, tn.Type(), fi), param: -1})
 					continue
@@ -419,7 +446,7 @@ func (ex *Exec) loopVars(hdr *ssa.BasicBlock, phiVal func(*ssa.Phi) Term) map[st
 				if obj == nil {
 					continue
 				}
-				if _, isVar := obj.(*types.Var); !isVar {
+				if vv, isVar := obj.(*types.Var); !isVar || vv.IsField() {
 					continue
 				}
 				name, v = obj.Name(), x.X
@@ -653,4 +680,14 @@ func (ex *Exec) backEdge(b, hdr *ssa.BasicBlock, cond Term, heap *Heap) {
 		m2 := sc.evalInt(spec.Decreases)
 		q.oblige(fmt.Sprintf("%s/dec@loop%d", q.fnName, l.ordinal), "dec", cond, and(le(tInt(0), *ls.measure), lt(m2, *ls.measure)), pos, "loop measure decreases: "+spec.Decreases.Text)
 	}
+}
+
+func fnPkg(f *ssa.Function) *types.Package {
+	if f.Pkg != nil {
+		return f.Pkg.Pkg
+	}
+	if f.Object() != nil {
+		return f.Object().Pkg()
+	}
+	return nil
 }
